@@ -325,6 +325,19 @@ func ClientRun(osenv *rsyncos.Env, opts *rsyncopts.Options, conn io.ReadWriter, 
 			}
 		}
 
+		if opts.DeleteMode() {
+			// A receiving server expects the exclusion list when deleting
+			// (rsync/main.c:client_run: send_filter_list).
+			for _, rule := range opts.FilterRules() {
+				c.WriteInt32(int32(len(rule)))
+				c.WriteString(rule)
+			}
+			const exclusionListEnd = 0
+			if err := c.WriteInt32(exclusionListEnd); err != nil {
+				return nil, err
+			}
+		}
+
 		stats, err := st.Do(crd, cwr, FileSystemRoot, paths, nil)
 		if err != nil {
 			return nil, err
